@@ -110,6 +110,20 @@ def _exc(e):
     return type(e).__name__
 
 
+def _short(v):
+    """Printable rendering that never trips the int -> str digit limit."""
+    if isinstance(v, int):
+        if v.bit_length() > 600:
+            return f"<int of {v.bit_length()} bits, low 64 bits {v & (2 ** 64 - 1):#x}>"
+        return str(v)
+    if isinstance(v, Fraction):
+        return f"{_short(v.numerator)}/{_short(v.denominator)}"
+    try:
+        return repr(v)[:200]
+    except ValueError:
+        return f"<{type(v).__name__} too large to print>"
+
+
 # {{{ integer_power
 
 class StrMonoid:
@@ -173,22 +187,23 @@ def check_ipow(spec):
             return res
         except Exception as e:
             return res.fail("ipow:negative-wrong-exception", f"{_exc(e)}: {e}")
-        return res.fail("ipow:negative-accepted", f"integer_power({x!r}, {n}) -> {got!r}")
+        return res.fail("ipow:negative-accepted",
+                        f"integer_power({_short(x)}, {n}) -> {_short(got)}")
     want = one
     for _ in range(n):
         want = want * x
     try:
         got = call()
     except Exception as e:
-        return res.fail(f"ipow:raises:{_exc(e)}", f"integer_power({x!r}, {n}): {e}")
+        return res.fail(f"ipow:raises:{_exc(e)}", f"integer_power({_short(x)}, {n}): {e}")
     if not (got == want):
-        res.fail("ipow:value", f"integer_power({x!r}, {n}) = {str(got)[:200]}, "
-                 f"repeated multiplication gives {str(want)[:200]}")
+        res.fail("ipow:value", f"integer_power({_short(x)}, {n}) = {_short(got)}, "
+                 f"repeated multiplication gives {_short(want)}")
     composite = n >= 4 and any(n % d == 0 for d in range(2, int(n ** 0.5) + 1))
     res.nontrivial = composite
     if n > 64:
         res.label("ipow:n>64")
-    res.sample = {"integer_power": repr(x), "n": n, "monoid": spec["dom"]}
+    res.sample = {"integer_power": _short(x), "n": n, "monoid": spec["dom"]}
     return res
 
 # }}}
@@ -1306,7 +1321,7 @@ def generate(ctx):
 
     # -- generated -----------------------------------------------------------
     plan = (
-        ("poly", G.poly_case(), 14000, 400000),
+        ("poly", G.poly_case(), 12000, 400000),
         ("poly-map", G.poly_map_case(), 3000, 80000),
         ("poly-subst", G.poly_subst_case(), 3000, 80000),
         ("poly-eval", G.poly_eval_case(), 3000, 80000),
